@@ -25,7 +25,7 @@ def typed_twins(rng):
 def gen(chk, binary, tier):
     rng = chk.rng
     quick = tier == "quick"
-    n = 90 if quick else 2500
+    n = 500 if quick else 4000
     streams = []
     kinds = ["L", "L", "L", "G", "g", "W", "w"]
     # (a) bursts of calls 1 ns apart around loader starts and completions
@@ -150,10 +150,21 @@ def run(chk):
         try:
             corpus = [cc.parse_line(l) for l in pure.corpus_cases("C04")]
             cc.check_batch(chk, binary, "corpus", corpus, cc.monitor_c04, nontrivial=nontrivial)
+            sample_lines = []
             for name, scripts in gen(chk, binary, chk.tier):
-                cc.check_batch(chk, binary, name, scripts, cc.monitor_c04, nontrivial=nontrivial)
+                res = cc.check_batch(chk, binary, name, scripts, cc.monitor_c04, nontrivial=nontrivial)
+                for sc, logs in res:
+                    if logs and len(sample_lines) < 80 and not logs[0].hang:
+                        variants, _, _ = cc.build_histories(sc, logs[0])
+                        if variants and len(variants[0][0]) < 300:
+                            sample_lines.append(cc.model_line(sc, variants[0][0]))
+            try:
+                mo = common.run_model(sample_lines)
+                chk.cov["vm_compute_crosschecked"] = cc.coq_crosscheck(chk, sample_lines, mo)
+            except Exception as ex:
+                chk.infra_errors.append("vm_compute cross-check failed: %r" % (ex,))
             run_shards(chk, binary)
-            run_stress(chk, 40 if chk.tier == "quick" else 600)
+            run_stress(chk, 100 if chk.tier == "quick" else 1500)
         except common.ImplCrash as e:
             chk.infra_errors.append("ftcache crashed or timed out: " + str(e)[-1200:])
     chk.finish(search=search)
